@@ -47,6 +47,21 @@ package controllerv1
 //@     invariant rangeindex >= -1 && inLabels(stream, rangeindex + 1) && stream.g_numCount == 0
 //@     modifies stream.g_state, stream.g_kind, stream.g_depth
 
+// A scalar result is `<seconds>, "<value>"`: both numbers as the shortest plain
+// decimal that parses back to the same float (%f keeps six decimals: 1e-9 would be
+// rendered as 0.000000).
+//@ func writeScalar [C15]
+//@   flag checks=-assert
+//@   at ResponseWriter).Write$ numbers-rendered-without-loss: str(arg0) == shortestDec(real(val.T) / 1000) + ", \"" + shortestDec(val.V) + "\""
+//@   replay:
+//@     import "net/http/httptest"
+//@     import "strings"
+//@     import "github.com/prometheus/prometheus/promql"
+//@     go: rec := httptest.NewRecorder()
+//@     go: if err := writeScalar(&promql.Result{Value: promql.Scalar{T: 1500, V: 1e-9}}, rec); err != nil { panic(err) }
+//@     go: if body := rec.Body.String(); !strings.Contains(body, `"0.000000001"`) { confirm("the scalar 1e-9 is not rendered exactly: " + body) }
+//@   end
+
 // TraceQL search: the traces of all batches form one JSON array. A separator is
 // written only right after a complete element, and an element only right after the
 // opening bracket or a separator - wherever the batch boundaries fall, also after
